@@ -105,9 +105,11 @@ class RuleView:
     list a clause of one property under another property that depends on it (floors stay active: a vanished anchor is an
     analysis error for every property that relies on it)."""
 
-    def __init__(self, ck: Checker, mapping: Dict[str, str]):
+    def __init__(self, ck: Checker, mapping: Dict[str, str], only_files=None, only_constructs=None):
         self._ck = ck
         self._map = mapping
+        self._only = tuple(only_files) if only_files else None      # keep only what is reported in these files (path prefixes)
+        self._only_c = tuple(only_constructs) if only_constructs else None   # ... or about these constructs (substrings)
         self.ctx = ck.ctx
         self.prop_id = ck.prop_id
         self.tier = ck.tier
@@ -121,16 +123,26 @@ class RuleView:
             else:
                 target.clauses.setdefault(self._map[rule], text)
 
+    def _here(self, a, k) -> bool:
+        if self._only_c is not None:
+            c = str(a[0] if a else k.get("construct", ""))
+            if not any(x in c for x in self._only_c):
+                return False
+        if self._only is None:
+            return True
+        w = a[1] if len(a) > 1 else k.get("where", "")
+        return str(w).startswith(self._only)
+
     def ok(self, rule, *a, **k):
-        if rule in self._map:
+        if rule in self._map and self._here(a, k):
             self._ck.ok(self._map[rule], *a, **k)
 
     def violation(self, rule, *a, **k):
-        if rule in self._map:
+        if rule in self._map and self._here(a, k):
             self._ck.violation(self._map[rule], *a, **k)
 
     def judge(self, cond, rule, *a, **k):
-        if rule in self._map:
+        if rule in self._map and self._here(a, k):
             self._ck.judge(cond, self._map[rule], *a, **k)
         return cond
 
